@@ -24,6 +24,15 @@
 (*  B5 the projection records whether a container is nil: a non-nil (possibly empty) input  *)
 (*     container must come back non-nil (a nil slice is another Go value and prints as null *)
 (*     in the strict writer); what a nil input container becomes is not stated anywhere.    *)
+(*  B6 option sets that change what a copying operation returns (a Converter with Int / Float / *)
+(*     String / Map / Array functions, the stock TimeRFC3339 / TimeNano / Mongo converters,  *)
+(*     OmitNil, OmitEmpty, TimeFormat, TimeMap, TimeWrap: ConvOpts): what the result must    *)
+(*     DENOTE then is the business of the converter specification (XCONV), not of C18; but   *)
+(*     Copy is Copy under every option set: InputKept, Disjoint and NoInterference hold      *)
+(*     whatever the options are ("the results of the copying operations share no mutable     *)
+(*     state with their input" has no exception for options).                                *)
+(*  B7 a time leaf is a time.Time: instant AND location (zone name, offset).  "Exactly"       *)
+(*     includes the location; monotonic clock readings are not modelled.                     *)
 EXTENDS Integers, Sequences, FiniteSets, TLC
 
 CONSTANTS MaxNodes,     \* size bound of generated input trees
@@ -47,13 +56,16 @@ FltSame(op, i, o) == IF "s" \in DOMAIN i
                      THEN i.s = o.s \/ (op \in Decomposing /\ i.g = "float32" /\ "s32" \in DOMAIN o /\ i.s32 = o.s32)   \* B1
                      ELSE i.q = o.q
 TimePart(x) == IF "ns" \in DOMAIN x THEN x.ns ELSE x.sec
+ZonePart(x) == IF "zo" \in DOMAIN x THEN <<x.zn, x.zo>> ELSE <<"UTC", 0>>      \* B7
+ConvOpts == {"mongo", "rfc3339", "nano", "intf", "fltf", "strf", "mapf", "arrf", "mapf+arrf", "timef", "allf",
+             "omitnil", "omitempty", "timefmt", "timemap", "timewrap"}            \* B6
 
 LeafOK(op, i, o) ==
    IF i.t = "big" THEN (o.t = "big" /\ o.text = i.text) \/ (o.t = "str" /\ o.v = i.text)                           \* B2
    ELSE IF i.t # o.t THEN FALSE
    ELSE IF i.t = "int" THEN IntPart(i) = IntPart(o)
    ELSE IF i.t = "flt" THEN FltSame(op, i, o)
-   ELSE IF i.t = "time" THEN TimePart(i) = TimePart(o)
+   ELSE IF i.t = "time" THEN TimePart(i) = TimePart(o) /\ ZonePart(i) = ZonePart(o)
    ELSE IF i.t = "null" THEN TRUE
    ELSE IF i.t \in {"bool", "str"} THEN i.v = o.v
    ELSE FALSE
@@ -162,7 +174,8 @@ EObj == [t |-> "obj", g |-> "map[string]any", k |-> <<>>, v |-> <<>>]
 \* every leaf kind and width of simple data
 AllLeaves == {Nil, [t |-> "bool", v |-> TRUE, g |-> "bool"], [t |-> "str", v |-> "x", g |-> "string"],
               [t |-> "flt", q |-> <<3, 1>>, g |-> "float64"], [t |-> "flt", q |-> <<1, 1>>, g |-> "float32"],
-              [t |-> "time", sec |-> 1, g |-> "time.Time"], [t |-> "big", text |-> "123456789012345678901234567890", g |-> "json.Number"]}
+              [t |-> "time", sec |-> 1, g |-> "time.Time"], [t |-> "time", sec |-> 2, g |-> "time.Time", zn |-> "JST", zo |-> 32400],
+              [t |-> "big", text |-> "123456789012345678901234567890", g |-> "json.Number"]}
              \cup {[t |-> "int", v |-> 7, g |-> w] : w \in SimpleInts}
 SmallVals == {Nil, I64(1), EArr, EObj}
 KeySeq == <<"a", "b">>
